@@ -251,7 +251,7 @@ func runC02(c *core.Ctx) {
 			}
 			lab.Quiesce()
 			c02Probe(c, l, "frame group "+group)
-			l.cancel()
+			l.close()
 			c.Outcome(group, fmt.Sprint(len(fcs)))
 			if c.WantSample() {
 				c.Sample(map[string]interface{}{"group": group, "frames": len(fcs), "example": fcs[len(fcs)/2].desc})
@@ -265,7 +265,7 @@ func runC02(c *core.Ctx) {
 		c.Case("tcp/flags/"+st, func() {
 			for fl := 0; fl < 64; fl++ {
 				for _, pl := range []int{0, 1, 7} {
-					l := newCanaryLab(canaryCfg{arpFor: allClients()})
+					l := newCanaryLabK(canaryCfg{arpFor: allClients()})
 					cl := clientIP(2)
 					seq := uint32(1000)
 					if st != "no-state" {
@@ -285,6 +285,7 @@ func runC02(c *core.Ctx) {
 					if fl%16 == 15 && pl == 7 {
 						c02Probe(c, l, fmt.Sprintf("flags up to %#02x in state %s", fl, st))
 					}
+					l.close()
 				}
 			}
 			c.Outcome("flags", st)
@@ -305,7 +306,7 @@ func runC02(c *core.Ctx) {
 		cf := cf
 		c.Case("tables/"+cf.name, func() {
 			for _, port := range []uint16{8081, 80, 23, 445} {
-				l := newCanaryLab(cf.cfg)
+				l := newCanaryLabK(cf.cfg)
 				cl := clientIP(3)
 				ok := c02Run(c, l, frameCase{"tables-syn", fmt.Sprintf("SYN to port %d from a peer with configuration: %s", port, cf.name), frameTCP(cl, tcpOpts{sport: 42000, dport: port, seq: 7, flags: fSYN}, nil)})
 				var srvSeq uint32
@@ -320,6 +321,7 @@ func runC02(c *core.Ctx) {
 					lab.Advance(61 * time.Second)
 				}
 				c02Probe(c, l, "transmit attempts with "+cf.name)
+				l.close()
 			}
 			c.Outcome("tables", cf.name)
 		})
@@ -333,7 +335,7 @@ func runC02(c *core.Ctx) {
 	for _, n := range floods {
 		n := n
 		c.Case(fmt.Sprintf("flood/%d", n), func() {
-			l := newCanaryLab(canaryCfg{arpFor: allClients()})
+			l := newCanaryLabK(canaryCfg{arpFor: allClients()})
 			for i := 0; i < n; i++ {
 				ip := clientIP(i / 60000)
 				port := uint16(1024 + i%60000)
@@ -351,6 +353,7 @@ func runC02(c *core.Ctx) {
 			c.Count("transitions", int64(n))
 			l.c.VerifDrainTx()
 			c02Probe(c, l, fmt.Sprintf("a flood of %d connection attempts", n))
+			l.close()
 			c.Outcome("flood", fmt.Sprint(n))
 		})
 	}
